@@ -48,6 +48,13 @@ func cfgFor(prop string, r *Rng) GenCfg {
 		f["storage"], f["resource"], f["container"], f["copy"], f["attachment"], f["event"], f["control"] = 4, 4, 4, 2, 2, 1, 1
 		f["capability"], f["contract"], f["hostsvc"] = 3, 2, 2
 	}
-	// swarm: randomly disable some secondary families
+	// atree validation (a debug configuration, quadratic in container size) only on small-value plans, and only sometimes
+	if c.BigRate > 0.1 || !r.Chance(0.4) {
+		nodes := append([]NodeConfig{}, c.Nodes...)
+		for i := range nodes {
+			nodes[i].AtreeValidation = false
+		}
+		c.Nodes = nodes
+	}
 	return c
 }
